@@ -129,7 +129,7 @@ class G:
         k = self.key(fam, wrong=0.3)
         a, b = self.two(fam)
         ops = [
-            lambda: "Del " + " ".join(self.key(fam, 0.3) for _ in range(r.randrange(1, 4))),
+            lambda: "Del " + " ".join(sorted({self.key(fam, 0.3) for _ in range(r.randrange(1, 4))})),   # no duplicates: Del k k on an expired k self-deadlocks (C06)
             lambda: "Unlink " + k,
             lambda: "Exists " + " ".join(self.key(fam, 0.3) for _ in range(r.randrange(1, 4))),
             lambda: f"Type {k}",
